@@ -41,7 +41,10 @@ Lemma table_length fl up : length (table fl up) = 26.
 Proof. destruct fl, up; reflexivity. Qed.
 
 Lemma table_scalars fl up : scalars (table fl up).
-Proof. destruct fl, up; vm_compute; repeat constructor. Qed.
+Proof.
+  assert (H : forallb is_scalar (table fl up) = true) by (destruct fl, up; vm_compute; reflexivity).
+  apply Forall_forall. intros x Hx. rewrite forallb_forall in H. apply H, Hx.
+Qed.
 
 Lemma elongate_set_checked cc :
   byte_in cc ELONGATE_SET = (N.eqb cc 97 || N.eqb cc 101 || N.eqb cc 111 || N.eqb cc 117).
@@ -84,7 +87,7 @@ Proof.
   intros Hc. destruct (encode_char_shape c Hc) as [[Hlt ->] | [Hge (b & t & Henc & Hb & Ht)]].
   - cbn [replace_all_az]. destruct (is_az c) eqn:Haz.
     + rewrite az_replacement_letter by exact Haz. cbn [obind]. rewrite app_nil_r. reflexivity.
-    + rewrite letter_map_other by exact Haz. cbn. reflexivity.
+    + rewrite letter_map_other by exact Haz. rewrite E_one, encode_char_ascii by exact Hlt. reflexivity.
   - rewrite letter_map_other by (unfold is_az; arith). rewrite E_one, Henc.
     apply replace_all_az_id. constructor; [unfold is_az; arith|].
     eapply Forall_impl; [|exact Ht]. intros x Hx. unfold is_az. arith.
